@@ -5,7 +5,7 @@ open LokiModel.C44 Sexp
 /-!
 Line protocol for C44.
 
-`(build (files (f STEM MOD (USE…))…) (lib STEM…) (w N) (log EVENT…) …)` with events `(s o)` submit,
+`(build (files (f STEM MOD (USE…))…) (lib STEM…) (w N) (log EVENT…) … [(uptodate STEM…)])` with events `(s o)` submit,
 `(b o)` begin/start, `(e o)` end, `(l o…)` link (chronological, as written by the compiler wrapper).
 Answer: the dependency edges the model derives, the known-class predicate, the order contract on the
 observed submit order, whether the log is a complete run of the model, the ordering invariant on the log
@@ -34,6 +34,12 @@ def linkArgs : List Sexp → List Nat
   | list (atom "l" :: os) :: _ => (natList? os).getD []
   | _ :: t => linkArgs t
 
+/-- `(uptodate s…)` among the trailing request fields: objects whose `.o` is newer than the source -/
+def freshOf : List Sexp → List Nat
+  | [] => []
+  | list (atom "uptodate" :: os) :: _ => (natList? os).getD []
+  | _ :: t => freshOf t
+
 def edgesOf (fs : List FileRec) (nodes : List Nat) : Sexp :=
   list (atom "edges" :: (fs.filter fun f => nodes.contains f.stem).map fun f =>
     list (ofNat f.stem :: (sortNat (codeDeps fs f.stem).eraseDups).map fun d =>
@@ -41,16 +47,17 @@ def edgesOf (fs : List FileRec) (nodes : List Nat) : Sexp :=
 
 def step : Sexp → Option Sexp
   | list (atom "build" :: list (atom "files" :: fsx) :: list (atom "lib" :: libx) :: list [atom "w", wx]
-      :: list (atom "log" :: logx) :: _) => do
+      :: list (atom "log" :: logx) :: rest) => do
       let fs ← fsx.mapM parseFile
       let lib ← natList? libx
       let w ← wx.toNat?
       let log ← logx.mapM parseEv
+      let fresh := freshOf rest
       let walk := subs log
-      let c := cfgOf fs walk (max w 1)
+      let c := cfgOfInc fs fresh walk (max w 1)
       let fuel := fs.length + 1
       let nodes := closure fs fuel lib.eraseDups
-      let built := sortNat (nodes.filter (hasSrc fs))
+      let built := sortNat (nodes.filter c.src)
       let acc : Sexp := match replay c (init c) log with
         | some s => if s.linked then list [atom "accepted", atom "true"]
                     else list [atom "accepted", atom "false", atom "incomplete"]
@@ -59,8 +66,8 @@ def step : Sexp → Option Sexp
         list [atom "known", ofBool (KnownStemMismatch fs)],
         list [atom "topo", ofBool (isTopo c)],
         acc,
-        list [atom "inv-code", ofBool (precOK (srcDeps fs) [] log)],
-        list [atom "inv-true", ofBool (precOK (trueDeps fs) [] log)],
+        list [atom "inv-code", ofBool (precOK (srcDepsInc fs fresh) [] log)],
+        list [atom "inv-true", ofBool (precOK (trueDepsInc fs fresh) [] log)],
         list [atom "once", ofBool (sortNat (starts log) == sortNat walk && sortNat (fins log) == sortNat walk
                                    && decide (walk.eraseDups.length = walk.length))],
         list [atom "walk-complete", ofBool (sortNat walk == built)],
